@@ -1,0 +1,26 @@
+//go:build verif
+
+// Accessor for the byte-level router check (C07/C08 on raw datagrams). Add-only; nothing here
+// changes behaviour.
+
+package router
+
+import (
+	"github.com/gopacket/gopacket"
+
+	"github.com/scionproto/scion/pkg/slayers"
+)
+
+// VerifSCMPDstPort runs the SCMP branch of dataPlane.dstScionPort on l4 (an SCMP message: base
+// header followed by the rest): SCMP.DecodeFromBytes, then getDstPortSCMP. ok=false: an error.
+func VerifSCMPDstPort(l4 []byte) (port uint16, ok bool) {
+	var scmpLayer slayers.SCMP
+	if err := scmpLayer.DecodeFromBytes(l4, gopacket.NilDecodeFeedback); err != nil {
+		return 0, false
+	}
+	p, err := getDstPortSCMP(&scmpLayer)
+	if err != nil {
+		return 0, false
+	}
+	return p, true
+}
